@@ -21,8 +21,8 @@ type C08W struct {
 
 func c08Gen(rng *rand.Rand, conf string, idx int) any {
 	w := &C08W{Early: rng.Intn(2), Late: 1 + rng.Intn(4), Pre: rng.Intn(3)}
-	for k, n := 0, 1+rng.Intn(3); k < n; k++ {
-		w.Creators = append(w.Creators, 1+rng.Intn(4))
+	for k, n := 0, 1+rng.Intn(3*deep(conf)); k < n; k++ {
+		w.Creators = append(w.Creators, 1+rng.Intn(4*deep(conf)))
 	}
 	if rng.Intn(3) == 0 {
 		for k := 0; k < w.Late; k++ {
@@ -251,12 +251,17 @@ func c08Shrink(wl any) []any {
 
 func init() {
 	register(&Property{
-		ID:         "C08",
-		Gen:        c08Gen,
-		New:        func() any { return &C08W{} },
-		Run:        c08Run,
-		Shrink:     c08Shrink,
-		Confs:      func(tier string) []Conf { return []Conf{{Name: "random", Weight: 1}} },
+		ID:     "C08",
+		Gen:    c08Gen,
+		New:    func() any { return &C08W{} },
+		Run:    c08Run,
+		Shrink: c08Shrink,
+		Confs: func(tier string) []Conf {
+			if tier == "thorough" {
+				return []Conf{{Name: "random", Weight: 3}, {Name: "deep", Weight: 1}}
+			}
+			return []Conf{{Name: "random", Weight: 1}}
+		},
 		Strategies: []string{"uniform", "pct", "pct", "starve", "starve"},
 		Components: h1Components,
 		Rule: "1-3 runtime goroutines each creating 1-4 containers (store update + CreateContainer inside BlockPluginSync/Unblock) while 1-4 plugins register (0-1 registered earlier, 0-2 containers pre-existing); " +
